@@ -118,6 +118,13 @@ def _entry_table(argname_opts="options"):
         # the local header writer announces extra_field.len() bytes and writes none (they come through the extra-data API, which
         # patches the length): a record that starts with extra bytes has a header that lies about where its data begins
         "extra_field": (lambda v: v[0] == "call" and re.search(r"Vec::<T>::new$|Vec::new$|Default::default$|Vec::<T>::with_capacity$", v[1]) is not None, "Vec::new()"),
+        # sizes and CRC: the raw values handed in by a raw copy, or zeros -- what a directory or symlink entry keeps (finish_file patches
+        # only entries that were written to), so a non-zero default is the declared size/CRC of every directory
+        **{k_: ((lambda k__: (lambda v: v[0] == "field" and v[2] == k__ and v[1][0] == "call" and v[1][2][0][0] == "arg" and v[1][2][0][2] == "raw_values" and
+                              ((v[1][1].endswith("::unwrap_or") and v[1][2][1][0] == "agg" and all(x_[1][0] == "const" and x_[1][2] == 0 for x_ in v[1][2][1][3])) or
+                               v[1][1].endswith("::unwrap_or_default"))))(k_),      # (a derived Default of three integers is three zeros)
+                 "raw_values.%s, or 0 when the entry is not a raw copy" % k_) for k_ in ("crc32", "compressed_size", "uncompressed_size")},
+        "system": (lambda v: v[0] == "agg" and v[1] == "adt:Unix", "System::Unix"),
         "file_comment": (lambda v: (v[0] == "call" and re.search(r"String::new$|Default::default$", v[1]) is not None) or (v[0] == "const" and v[2] in ("", None)), "String::new()"),
     }
 
